@@ -92,6 +92,13 @@ func (c *replacerCompiler) compile(v reflect.Value) Replacer {
 		})
 	case goast.ForStmtPtrType:
 		return c.compileForStmt(v)
+	case caseClausePtrType:
+		if clause := v.Interface().(*ast.CaseClause); clause.List != nil {
+			return caseClauseReplacer{
+				Clause: c.compileGeneric(v),
+				Pos:    c.fset.Position(clause.Pos()),
+			}
+		}
 	case dotsPtrType:
 		// Elisions in lists and in "for ... {" are handled by the cases
 		// above. Anywhere else we have nothing to reproduce in its place,
@@ -145,4 +152,24 @@ type errorReplacer struct{ Err error }
 // Replace reports the error.
 func (r errorReplacer) Replace(data.Data, Changelog, token.Pos) (reflect.Value, error) {
 	return reflect.Value{}, r.Err
+}
+
+// caseClauseReplacer reproduces a "case" clause of a switch statement. A case
+// clause has at least one expression; a "..." in its list may stand for none.
+// go/ast takes a clause without expressions for "default:", and so would
+// go/printer.
+type caseClauseReplacer struct {
+	Clause Replacer
+	Pos    token.Position
+}
+
+func (r caseClauseReplacer) Replace(d data.Data, cl Changelog, pos token.Pos) (reflect.Value, error) {
+	v, err := r.Clause.Replace(d, cl, pos)
+	if err != nil {
+		return v, err
+	}
+	if clause, ok := v.Interface().(*ast.CaseClause); ok && clause != nil && len(clause.List) == 0 {
+		return v, fmt.Errorf(`%v: the "case" clause is left without an expression`, r.Pos)
+	}
+	return v, nil
 }
